@@ -317,6 +317,59 @@ impl RemoteMap {
     }
 }
 
+/// Accessors for the verification harness (property C21): the `pub(super)` entry points, unchanged.
+#[cfg(iroh_verif)]
+impl RemoteMap {
+    pub(crate) fn verif_new(
+        metrics: Arc<SocketMetrics>,
+        local_direct_addrs: n0_watcher::Direct<BTreeSet<DirectAddr>>,
+        address_lookup: address_lookup::AddressLookupServices,
+        shutdown_token: CancellationToken,
+        path_selector: Arc<dyn PathSelector>,
+    ) -> Self {
+        Self::new(
+            metrics,
+            local_direct_addrs,
+            address_lookup,
+            shutdown_token,
+            path_selector,
+            Span::none(),
+        )
+    }
+
+    pub(crate) async fn verif_resolve_remote(
+        &mut self,
+        addr: EndpointAddr,
+        tx: oneshot::Sender<Result<(), AddressLookupFailed>>,
+    ) {
+        self.resolve_remote(addr, tx).await
+    }
+
+    pub(crate) async fn verif_cleanup(&mut self) -> EndpointId {
+        self.cleanup().await
+    }
+
+    pub(crate) fn verif_has_sender(&self, id: EndpointId) -> bool {
+        self.senders().get(&id).is_some()
+    }
+
+    /// `Socket::remote_info`'s use of the shared sender map, without waiting for inbox capacity.
+    ///
+    /// `Err(0)`: no sender, `Err(1)`: inbox closed, `Err(2)`: inbox full.
+    pub(crate) fn verif_remote_info_direct(
+        &self,
+        id: EndpointId,
+    ) -> Result<oneshot::Receiver<RemoteInfo>, u8> {
+        let sender = self.senders().get(&id).ok_or(0u8)?;
+        let (tx, rx) = oneshot::channel();
+        match sender.try_send(RemoteStateMessage::RemoteInfo(tx)) {
+            Ok(()) => Ok(rx),
+            Err(mpsc::error::TrySendError::Closed(_)) => Err(1),
+            Err(mpsc::error::TrySendError::Full(_)) => Err(2),
+        }
+    }
+}
+
 impl Tasks {
     /// Starts a new remote state actor and returns a handle and a sender.
     ///
